@@ -89,6 +89,47 @@ def h12_consume_mem(S):
         S.check("expired-stays-retrievable", out["dead_got"] is not None and out["dead_got"][0].id_ == "m1")
 
 
+def h12_redis_maintenance(S):
+    """Redis: a message delivered within its time-to-live is being executed when the ttl runs out; another process connects (broker
+    maintenance runs): the running message is not dead-lettered for its ttl - it is its holder's until that one settles it."""
+    import repid.data._parameters as P
+    from fakes import redis as fr
+    from repid.data._key import RoutingKey
+
+    ts = S.int("timestamp", Y2000, Y2050)
+    ttl = S.int("ttl", SEC, 3600 * SEC)
+    taken_after = S.int("delivered_after", 0, 3600 * SEC)
+    maint_after = S.int("maintenance_after_the_delivery", 0, 500 * SEC)          # well inside the execution timeout (10 min)
+    S.assume(taken_after <= ttl)                                                  # delivered within its ttl
+    clock = PinnedClock(ts)
+    out = {}
+
+    async def main(loop):
+        srv = fr.FakeServer(clock=lambda: clock.time())
+        holder, other = fr.mk_broker(srv, "holder"), fr.mk_broker(srv, "other")
+        key = RoutingKey(topic="job", queue="default", id_="m1")
+        await holder.enqueue(key, "p", P.Parameters(timestamp=S.datetime_us(ts), ttl=S.timedelta_us(ttl)))
+        clock.set(ts + taken_after)
+        cons = holder.get_consumer("default", ["job"])
+        cons.POLLING_WAIT = 0
+        out["got"] = await cons.consume_or_none()
+        clock.set(ts + taken_after + maint_after)
+        await other.maintenance()
+        out["places"] = {i: sorted(p[0] for p in v) for i, v in fr.redis_places(srv).items()}
+        if out["got"] is not None:
+            await holder.ack(key)
+        out["after_ack"] = {i: sorted(p[0] for p in v) for i, v in fr.redis_places(srv).items()}
+
+    run_async(main, clock=clock)
+    S.check("delivered-within-its-ttl", out["got"] is not None)
+    if out["got"] is None:
+        return
+    S.cover("maintenance-while-held")
+    S.check("running-message-is-not-dead-lettered-for-its-ttl", out["places"].get("m1") == ["processing"],
+            info=f"after another process's maintenance the held message is in {out['places'].get('m1')}")
+    S.check("acked-message-is-gone", out["after_ack"].get("m1", []) == [], info=str(out["after_ack"]))
+
+
 def h12_step(S):
     """TTL base after a retry (unchanged) and after a reschedule (restarted)."""
     o = process_step(S, policy_kind=1, ttl=True)
@@ -362,6 +403,9 @@ HARNESSES += [
                     "deferred_by": "absent or [1 s, 40 d]", "delivery instant": "any µs from creation to 2100"},
             functions=["job.py:Job.__init__", "job.py:Job.enqueue", "data/_parameters.py:Parameters.is_overdue"],
             covers=["handed-over", "withheld", "not-due"]),
+    Harness(name="H12-redis-maintenance", scenario=h12_redis_maintenance, workers=4,
+            bounds={"ttl": "[1 s, 1 h]", "delivered": "any µs within the ttl", "maintenance by another connection": "0..500 s after the delivery (execution timeout 10 min)"},
+            functions=["connections/redis/message_broker.py:RedisMessageBroker.maintenance"], covers=["maintenance-while-held"], stubs=["fake Redis server"]),
     Harness(name="H12-consume-redis", scenario=_cb("redis"),
             bounds={"timestamp": "2000..2050", "ttl": "None or [0, 100 y] (Parameters built directly; Job itself refuses ttl < 1 s)", "delivery instant": "any µs >= timestamp up to 2100", "priority": "LOW / MEDIUM / HIGH",
                     "origin": "normal list, or the delayed set with any due time >= timestamp (whole-second scores)"},
